@@ -65,7 +65,7 @@ def empty(ctx):
                     p = op_place(st[2][1])
                     if p is not None and p[0] in tainted and len(p) >= 2:
                         idxs = [x[1] for x in p[1:] if isinstance(x, list) and x[0] == "f"]
-                        if idxs and b.dominates(q.bb, bb):
+                        if idxs and flow.vdominates(b, q.bb, bb):
                             flags[idxs[-1]] = (st[1][0], bb)
         if not R.require(set(flags) == {0, 1}, "flags#%d" % n, q.where(), "both flags are destructured from the row", fail_msg="could not find the (in_gaps, buffered) locals of the query at %s" % q.where()):
             continue
